@@ -13,6 +13,7 @@ import (
 	"fmt"
 	"os"
 	"sort"
+	"strconv"
 	"strings"
 	"time"
 
@@ -262,6 +263,9 @@ func predSearch(c searchCase, o *evid.Obs) error {
 		o.Tag("selects-all")
 	}
 
+	orTags(&c, from, to, o)
+	numericTags(&c, from, to, o)
+
 	// The per-portion processor (complex_request_processor.go) moves From to the earliest
 	// start among the current winners whenever an iteration fills the page. The known finding
 	// C11-portion-narrows-window is the case where that move changes what is read: some span
@@ -393,6 +397,116 @@ func portionTags(c *searchCase, ref []refeval.TQTraceResult, o *evid.Obs) {
 			o.Tag("later-portion-newer")
 			return
 		}
+	}
+}
+
+// orTags classifies `{A} || {B}` cases: does the limit cut into what one operand alone
+// matches, and does a selected trace carry spans that only A and spans that only B matches.
+func orTags(c *searchCase, from, to int64, o *evid.Obs) {
+	if len(c.Q.Sels) != 2 || c.Q.Ops[0] != "||" {
+		return
+	}
+	o.Tag("or-chain")
+	var per [2][]refeval.TQTraceResult
+	for i := 0; i < 2; i++ {
+		res, err := refeval.EvalTraceQL(&refeval.TQScript{Sels: []refeval.TQSelector{c.Q.Sels[i]}}, &c.DB, from, to, refeval.TQReadStd)
+		if err != nil {
+			return
+		}
+		per[i] = res
+	}
+	cut, disjoint := false, false
+	for i := 0; i < 2; i++ {
+		n := 0
+		for _, t := range per[i] {
+			if t.State == refeval.TQYes {
+				n++
+			}
+		}
+		if n > c.Limit {
+			cut = true
+		}
+	}
+	for ti := range c.DB.Traces {
+		a, b := per[0][ti], per[1][ti]
+		if a.State != refeval.TQYes || b.State != refeval.TQYes {
+			continue
+		}
+		inA, inB := map[string]bool{}, map[string]bool{}
+		for _, s := range a.Spans {
+			inA[s] = true
+		}
+		for _, s := range b.Spans {
+			inB[s] = true
+		}
+		onlyA, onlyB := false, false
+		for s := range inA {
+			if !inB[s] {
+				onlyA = true
+			}
+		}
+		for s := range inB {
+			if !inA[s] {
+				onlyB = true
+			}
+		}
+		if onlyA && onlyB {
+			disjoint = true
+		}
+	}
+	if cut {
+		o.Tag("or:limit-below-one-operand's-matches")
+	}
+	if disjoint {
+		o.Tag("or:trace-with-spans-of-different-operands")
+	}
+	if cut && disjoint {
+		o.Tag("or:both")
+	}
+}
+
+// numericTags: numeric comparison terms with a zero or negative threshold, and whether a
+// span in the window carries a non-numeric / empty value for that key or lacks it.
+func numericTags(c *searchCase, from, to int64, o *evid.Obs) {
+	nonpos, against := false, false
+	for i := range c.Q.Sels {
+		c.Q.Sels[i].Expr.Terms(func(t *refeval.TQTerm) {
+			if t.Val.Kind != "num" {
+				return
+			}
+			f, err := strconv.ParseFloat(t.Val.Num, 64)
+			key, isDur, kerr := refeval.TQKeyOfLabel(t.Label)
+			if err != nil || kerr != nil || isDur || f > 0 {
+				return
+			}
+			nonpos = true
+			for ti := range c.DB.Traces {
+				for si := range c.DB.Traces[ti].Spans {
+					sp := &c.DB.Traces[ti].Spans[si]
+					if sp.TS < from || sp.TS >= to {
+						continue
+					}
+					found := false
+					for _, kv := range sp.AllAttrs() {
+						if kv.K == key {
+							found = true
+							if _, isNum := refeval.TQNumericAttr(kv.V); !isNum {
+								against = true
+							}
+						}
+					}
+					if !found {
+						against = true
+					}
+				}
+			}
+		})
+	}
+	if nonpos {
+		o.Tag("num-threshold<=0")
+	}
+	if against {
+		o.Tag("num-threshold<=0-vs-nonnumeric-or-missing")
 	}
 }
 
